@@ -193,6 +193,14 @@ def r2_setters(repo: Repo, rep, rule_id="R-C17-2"):
             carried = attr in src or setter in src
             rep.check(R, carried, fi.site(), fi.fq, f"`{attr}` (written by {setter}) is carried over to the evaluated domain",
                       f"{ci.name}.__call__ never mentions {attr} / {setter}", f"{attr} dropped")
+            if carried:
+                # what is carried over is the user's function *evaluated at the fixed values*: the evaluated domain no longer declares those variables
+                vals = [n.value for n in ast.walk(fi.node) if isinstance(n, ast.Assign) and any(isinstance(t, ast.Attribute) and t.attr == attr for t in n.targets)]
+                vals += [c.args[0] for c in ast.walk(fi.node) if isinstance(c, ast.Call) and isinstance(c.func, ast.Attribute) and c.func.attr == setter and c.args]
+                from ..util import deref, single_defs
+                tmp = single_defs(fi.node)
+                raw = [dump(v)[:60] for v in vals if "partially_evaluate" not in dump(deref(v, tmp)) and f"self.{attr}" in dump(deref(v, tmp))]
+                rep.check(R, not raw, fi.site(), fi.fq, f"the carried `{attr}` is partially evaluated with the data of the call", f"copied unevaluated: {raw[:2]}", f"{attr} carried unevaluated")
 
 
 def r3_necessary_variables(repo: Repo, rep):
@@ -461,6 +469,9 @@ def r6_derived_functions(repo: Repo, rep):
 
 
 def run(repo: Repo, rep):
+    from .generic import g_arg_constructor_parameters
+    g_arg_constructor_parameters(repo, rep, lambda m: ".domains." in m or m.endswith(".user_fun"), floor=25,
+                                 why="an evaluated domain rebuilt without one of its constructor arguments denotes another set")
     r7_product_call(repo, rep)
     r6_derived_functions(repo, rep)
     r5_point_data(repo, rep)
@@ -468,6 +479,8 @@ def run(repo: Repo, rep):
     r2_setters(repo, rep)
     r3_necessary_variables(repo, rep)
     r4_call_pure(repo, rep)
+    from .c13 import r2_r3_mapping  # "the same as supplying the parameters": a value supplied in a parameter row wins over the stored default, as a fixed value does
+    r2_r3_mapping(repo, rep)
     from .c13 import r5_copy_on_partial, r6_no_alias, r7_set_default  # partial evaluation of shape functions must not touch the original wrapper and must bind what it is given; re-wrapping (domain constructors, rotation matrices) keeps the values already fixed
     r5_copy_on_partial(repo, rep)
     r6_no_alias(repo, rep)
